@@ -347,3 +347,219 @@ Fixpoint session_save_data (kvs : list (list N * list N)) : list N :=
   | [] => []
   | (k, v) :: r => packed_header (length k) false (length v) ++ k ++ v ++ session_save_data r
   end.
+
+(* ====================================================================================================
+   The encryptor OBJECT: state carried from one call to the next.
+   src/aes.cpp, openssl_aes_encryptor keeps TWO chaining vectors: iv_enc_ (read and updated by encrypt only)
+   and iv_dec_ (read and updated by decrypt only); set_iv writes both, set_nonce_iv draws both from the random
+   device; encrypt/decrypt before an IV was set raise.  AES_cbc_encrypt leaves the last cipher block (of its
+   output when encrypting, of its input when decrypting) in the vector it was given.
+   aes_cipher (src/aes_encryptor.cpp) owns one such object: load() draws the nonce once; encrypt() chains
+   through iv_enc; decrypt() reaches the cbc object only after the structure and MAC checks passed.
+   ==================================================================================================== *)
+Record cbcobj := mkobj { iv_enc : list N; iv_dec : list N; iv_init : bool }.
+Definition zeros16 : list N := repeat 0 16.
+Definition obj_fresh : cbcobj := mkobj zeros16 zeros16 false.      (* reset() in the constructor *)
+
+Inductive cbcop :=
+| OSetIv (iv : list N)            (* set_iv(ptr,size) *)
+| ONonce (ne nd : list N)         (* set_nonce_iv(): two draws of 16 random bytes, encryption side first *)
+| OEnc (inp : list N)             (* encrypt(in,out,len), len a multiple of 16 *)
+| ODec (inp : list N).            (* decrypt(in,out,len), len a multiple of 16 *)
+Inductive ores := ONoOut | OOut (out : list N) | OThrow.
+
+(* the vector AES_cbc_encrypt(..., AES_DECRYPT) leaves behind: the last cipher block of the input *)
+Fixpoint cbc_dec_next (nb : nat) (iv inp : list N) : list N :=
+  match nb with O => iv | S n => cbc_dec_next n (firstn 16 inp) (skipn 16 inp) end.
+
+Definition is_enc_op (op : cbcop) : bool := match op with OEnc _ => true | _ => false end.
+Definition is_dec_op (op : cbcop) : bool := match op with ODec _ => true | _ => false end.
+
+(* a history of calls on one session_cookies object (one request = load then save on the same object) *)
+Inductive sop := SSave (data : list N) (t : Z) | SLoad (now : Z) (cookie : list N).
+Inductive sres := RSaved (cookie : list N) | RLoaded (v : verdict).
+Definition is_save_op (op : sop) : bool := match op with SSave _ _ => true | _ => false end.
+
+Section Obj.
+  Variable hmac : N -> list N -> list N -> list N.
+  Variable dlen : N -> nat.
+  Variable E D : list N -> list N -> list N.
+
+  (* ---------- crypto::cbc object ---------- *)
+  Definition obj_encrypt (k : list N) (o : cbcobj) (inp : list N) : list N * cbcobj :=
+    let (out, iv') := cbc_enc E k (length inp / 16) (iv_enc o) inp in
+    (out, mkobj iv' (iv_dec o) (iv_init o)).
+  Definition obj_decrypt (k : list N) (o : cbcobj) (inp : list N) : list N * cbcobj :=
+    let nb := (length inp / 16)%nat in
+    (cbc_dec D k nb (iv_dec o) inp, mkobj (iv_enc o) (cbc_dec_next nb (iv_dec o) inp) (iv_init o)).
+
+  Definition obj_step (k : list N) (o : cbcobj) (op : cbcop) : ores * cbcobj :=
+    match op with
+    | OSetIv iv => if Nat.eqb (length iv) 16 then (ONoOut, mkobj iv iv true) else (OThrow, o)
+    | ONonce ne nd => (ONoOut, mkobj ne nd true)
+    | OEnc inp => if iv_init o then let (out, o') := obj_encrypt k o inp in (OOut out, o') else (OThrow, o)
+    | ODec inp => if iv_init o then let (out, o') := obj_decrypt k o inp in (OOut out, o') else (OThrow, o)
+    end.
+  Fixpoint obj_run (k : list N) (o : cbcobj) (ops : list cbcop) : list ores :=
+    match ops with
+    | [] => []
+    | op :: r => let (res, o') := obj_step k o op in res :: obj_run k o' r
+    end.
+  (* the answers to the calls selected by sel, in order *)
+  Fixpoint obj_outs (sel : cbcop -> bool) (k : list N) (o : cbcobj) (ops : list cbcop) : list ores :=
+    match ops with
+    | [] => []
+    | op :: r => let (res, o') := obj_step k o op in
+                 if sel op then res :: obj_outs sel k o' r else obj_outs sel k o' r
+    end.
+  (* the chaining vectors encrypt calls start from, in order *)
+  Fixpoint obj_enc_ivs (k : list N) (o : cbcobj) (ops : list cbcop) : list (list N) :=
+    match ops with
+    | [] => []
+    | op :: r => let o' := snd (obj_step k o op) in
+                 if is_enc_op op then iv_enc o :: obj_enc_ivs k o' r else obj_enc_ivs k o' r
+    end.
+
+  (* ---------- aes_cipher on its cbc object ---------- *)
+  (* everything aes_cipher::decrypt checks before it calls cbc_->decrypt *)
+  Definition aes_auth_ok (ma : N) (mk c : list N) : bool :=
+    if Nat.ltb (length c) (dlen ma + 16) then false
+    else
+      let real := (length c - dlen ma)%nat in
+      if negb (Nat.eqb (real mod 16) 0) then false
+      else if Nat.ltb (real / 16) 2 then false
+      else ct_equal (dlen ma) (hmac ma mk (firstn real c)) (skipn real c).
+
+  Definition aes_obj_encrypt (ck : list N) (ma : N) (mk : list N) (o : cbcobj) (p : list N) : list N * cbcobj :=
+    let (ci, iv') := aes_encrypt hmac E ck ma mk (iv_enc o) p in
+    (ci, mkobj iv' (iv_dec o) (iv_init o)).
+  Definition aes_obj_decrypt (ck : list N) (ma : N) (mk : list N) (o : cbcobj) (c : list N) : option (list N) * cbcobj :=
+    (aes_decrypt hmac dlen D ck ma mk (iv_dec o) c,
+     if aes_auth_ok ma mk c
+     then mkobj (iv_enc o) (cbc_dec_next ((length c - dlen ma) / 16) (iv_dec o) c) (iv_init o)
+     else o).
+
+  Definition enc_obj_encrypt (c : cfg) (o : cbcobj) (p : list N) : list N * cbcobj :=
+    match c with
+    | CHmac a k => (hmac_encrypt hmac a k p, o)
+    | CAes ck ma mk => aes_obj_encrypt ck ma mk o p
+    end.
+  Definition enc_obj_decrypt (c : cfg) (o : cbcobj) (ci : list N) : option (list N) * cbcobj :=
+    match c with
+    | CHmac a k => (hmac_decrypt hmac dlen a k ci, o)
+    | CAes ck ma mk => aes_obj_decrypt ck ma mk o ci
+    end.
+
+  (* ---------- session_cookies on its encryptor object ---------- *)
+  Definition cookies_obj_save (c : cfg) (o : cbcobj) (data : list N) (t : Z) : list N * cbcobj :=
+    let (ci, o') := enc_obj_encrypt c o (le64_enc t ++ data) in
+    (67 :: encode_str ci, o').
+  Definition cookies_obj_load (c : cfg) (now : Z) (o : cbcobj) (cookie : list N) : verdict * cbcobj :=
+    (cookies_load hmac dlen D c now (iv_dec o) cookie,
+     match cookie with
+     | [] => o
+     | c0 :: rest =>
+         if negb (c0 =? 67) then o
+         else match decode_str rest with
+              | None => o
+              | Some ci => snd (enc_obj_decrypt c o ci)
+              end
+     end).
+
+  Definition cookies_obj_step (c : cfg) (o : cbcobj) (op : sop) : sres * cbcobj :=
+    match op with
+    | SSave d t => let (ck, o') := cookies_obj_save c o d t in (RSaved ck, o')
+    | SLoad now ck => let (v, o') := cookies_obj_load c now o ck in (RLoaded v, o')
+    end.
+  Fixpoint cookies_obj_run (c : cfg) (o : cbcobj) (ops : list sop) : list sres :=
+    match ops with
+    | [] => []
+    | op :: r => let (res, o') := cookies_obj_step c o op in res :: cookies_obj_run c o' r
+    end.
+  (* the cookies issued by a history, in order *)
+  Fixpoint cookies_issued (c : cfg) (o : cbcobj) (ops : list sop) : list (list N) :=
+    match ops with
+    | [] => []
+    | op :: r => let (res, o') := cookies_obj_step c o op in
+                 match res with
+                 | RSaved ck => ck :: cookies_issued c o' r
+                 | RLoaded _ => cookies_issued c o' r
+                 end
+    end.
+  (* the chaining vector each save starts from *)
+  Fixpoint cookies_save_ivs (c : cfg) (o : cbcobj) (ops : list sop) : list (list N) :=
+    match ops with
+    | [] => []
+    | op :: r => let o' := snd (cookies_obj_step c o op) in
+                 if is_save_op op then iv_enc o :: cookies_save_ivs c o' r else cookies_save_ivs c o' r
+    end.
+End Obj.
+
+(* ---------- session_interface: the data of a request and whether save() issues a cookie ---------- *)
+(* std::map<std::string,entry> order: byte-wise lexicographic, a proper prefix first *)
+Fixpoint list_ltb (a b : list N) : bool :=
+  match a, b with
+  | [], [] => false
+  | [], _ :: _ => true
+  | _ :: _, [] => false
+  | x :: a', y :: b' => if x <? y then true else if y <? x then false else list_ltb a' b'
+  end.
+Fixpoint kv_set (k v : list N) (l : list (list N * list N)) : list (list N * list N) :=
+  match l with
+  | [] => [(k, v)]
+  | (k', v') :: r =>
+      if list_eqb k k' then (k, v) :: r
+      else if list_ltb k k' then (k, v) :: l
+      else (k', v') :: kv_set k v r
+  end.
+Fixpoint kv_set_all (sets l : list (list N * list N)) : list (list N * list N) :=
+  match sets with
+  | [] => l
+  | (k, v) :: r => kv_set_all r (kv_set k v l)
+  end.
+Fixpoint kv_eqb (a b : list (list N * list N)) : bool :=
+  match a, b with
+  | [], [] => true
+  | (k, v) :: a', (k', v') :: b' => list_eqb k k' && list_eqb v v' && kv_eqb a' b'
+  | _, _ => false
+  end.
+Definition is_nil_kv (l : list (list N * list N)) : bool := match l with [] => true | _ => false end.
+(* expiration policy: 0 fixed, 1 renew, 2 browser.  session_interface::save for a non-empty data map without
+   csrf / exposed entries / _t _h _s overrides:
+     loaded = Some (data_copy, timeout_in) if load() accepted the presented cookie
+     -> None (no cookie issued) | Some expiry to save with *)
+Definition si_save_decide (how : N) (timeout_val now : Z) (loaded : option (list (list N * list N) * Z))
+           (data : list (list N * list N)) : option Z :=
+  let new_session := match loaded with None => true | Some (dc, _) => is_nil_kv dc end in
+  let fresh := (timeout_val + now)%Z in
+  match loaded with
+  | Some (dc, tin) =>
+      if kv_eqb data dc && negb new_session then
+        if how =? 0 then None
+        else
+          (* delta < timeout_val * 0.1  (double arithmetic; compared exactly as 10*delta < timeout_val) *)
+          if (10 * (now + timeout_val - tin) <? timeout_val)%Z then None
+          else Some fresh
+      else if (how =? 0) && negb new_session then Some tin else Some fresh
+  | None => Some fresh
+  end.
+
+(* session_interface::load_data: packed header, key, value, repeated; data[key] = value (a later entry with the same
+   key replaces the earlier one); a header or an entry that does not fit raises (None).  fuel = length of the text *)
+Fixpoint session_load_data (fuel : nat) (s : list N) (acc : list (list N * list N)) : option (list (list N * list N)) :=
+  match s with
+  | [] => Some acc
+  | _ :: _ =>
+      match fuel with
+      | O => None
+      | S f =>
+          if Nat.ltb (length s) 4 then None
+          else
+            let h := le_dec (firstn 4 s) in
+            let ks := N.to_nat (h mod 1024) in
+            let ds := N.to_nat (h / 2048) in
+            let rest := skipn 4 s in
+            if Nat.ltb (length rest) (ks + ds) then None
+            else session_load_data f (skipn (ks + ds) rest) (kv_set (firstn ks rest) (firstn ds (skipn ks rest)) acc)
+      end
+  end.
